@@ -210,13 +210,51 @@ func hasLeak(o outcome, route func(l leak) string, rt, class string) bool {
 	return false
 }
 
-// findings reduces the leaks of a case to finding keys. A leak seen in a chain or after an
-// earlier mutation is re-tried as the single-route / single-mutation case; only if that smaller
-// case does not show the same (route, class) leak does the composite stay in the key.
+// cellWitness answers: does the plain matrix cell (route r alone, one mutation of class `class`)
+// leak? It returns the smallest such 1x1 case. This is the reduction target of every composite case
+// (route chains, mutation sequences): if the cell itself leaks, the composite is the same root
+// cause and gets the cell's key. Results are memoised for the life of the worker process.
+var cellMemo = map[string]*kase{}
+
+func cellWitness(r, class, preferShape string, rot int, jc *judgeCache) *kase {
+	order := []string{preferShape}
+	for _, s := range shapes() {
+		if s.name != preferShape {
+			order = append(order, s.name)
+		}
+	}
+	for _, sh := range order {
+		mk := r + "|" + class + "|" + sh
+		w, done := cellMemo[mk]
+		if !done {
+			for _, steps := range stepsFor("1x1", 2) {
+				c := kase{Shape: sh, Routes: []string{r}, Steps: steps, Rot: rot}
+				if !c.build().ok {
+					continue
+				}
+				o := jc.get(c)
+				if o.Evaluable && hasLeak(o, func(x leak) string { return r }, r, class) {
+					cc := c
+					w = &cc
+					break
+				}
+			}
+			cellMemo[mk] = w
+		}
+		if w != nil {
+			return w
+		}
+	}
+	return nil
+}
+
+// findings reduces the leaks of a case to finding keys: leak:<route between the two names>:<class
+// of the leaking write>. Composite context (chain, earlier mutations) stays in the key only when
+// the plain cell (that route alone, a single mutation of that class) does not leak.
 func findings(k kase, o outcome, jc *judgeCache) []finding {
 	var out []finding
 	seen := map[string]bool{}
-	add := func(key, clause string, l *leak, c kase, size int) {
+	add := func(key, clause string, c kase, size int) {
 		if seen[key] {
 			return
 		}
@@ -224,67 +262,72 @@ func findings(k kase, o outcome, jc *judgeCache) []finding {
 		d := "case: " + c.String() + "\n" + describe(c)
 		out = append(out, finding{Key: key, Clause: clause, Detail: d, Size: size, Case: c})
 	}
-	if o.OuterLeak {
-		add("leak:"+k.Routes[len(k.Routes)-1]+":"+o.B.classes[0], "leak", nil, k, 12)
+	report := func(rt, class string, step int) {
+		ctx := ""
+		if len(k.Steps) > 1 && step > 0 {
+			pre := []string{}
+			for j := range k.Steps[:step] {
+				pre = append(pre, o.B.classes[j])
+			}
+			ctx += ":after(" + strings.Join(pre, ",") + ")"
+		}
+		if len(k.Routes) > 1 {
+			ctx += ":in(" + strings.Join(k.Routes, ">") + ")"
+		}
+		parts := strings.Split(rt, "+")
+		explained := true
+		for _, r := range parts {
+			if cellWitness(r, class, k.Shape, k.Rot, jc) == nil {
+				explained = false
+			}
+		}
+		if explained {
+			// every link of the path leaks this class on its own: same root cause(s) as the plain cells
+			for _, r := range parts {
+				w := cellWitness(r, class, k.Shape, k.Rot, jc)
+				add("leak:"+r+":"+class, "leak", *w, 11)
+			}
+			return
+		}
+		if ctx == "" {
+			add("leak:"+rt+":"+class, "leak", k, 11)
+			return
+		}
+		add("leak:"+rt+":"+class+ctx, "leak", k, 10*len(k.Routes)+len(k.Steps)+10)
 	}
 	for _, l := range o.Leaks {
-		l := l
-		// adjacent-name leaks explain non-adjacent ones of the same step
-		if d := l.From - l.To; (d > 1 || d < -1) && func() bool {
+		// a leak to an adjacent name explains the leaks of the same write to names further away
+		if d := l.From - l.To; d > 1 || d < -1 {
+			adj := false
 			for _, m := range o.Leaks {
 				if m.Step == l.Step && m.From == l.From && (m.To-m.From == 1 || m.From-m.To == 1) {
-					return true
+					adj = true
 				}
 			}
-			return false
-		}() {
-			continue
-		}
-		rt := routeBetween(k, l.From, l.To)
-		key := "leak:" + rt + ":" + l.Class
-		cur := k
-		size := 10*len(k.Routes) + len(k.Steps)
-		// 1. drop earlier/later mutations
-		if len(k.Steps) > 1 {
-			single := kase{Shape: k.Shape, Routes: k.Routes, Rot: k.Rot, Steps: []step{k.Steps[l.Step]}}
-			so := jc.get(single)
-			if so.Evaluable && hasLeak(so, func(x leak) string { return routeBetween(single, x.From, x.To) }, rt, l.Class) {
-				cur = single
-				size = 10*len(k.Routes) + 1
-			} else {
-				pre := []string{}
-				for _, s := range k.Steps[:l.Step] {
-					pre = append(pre, s.Mut)
-				}
-				key += ":after(" + strings.Join(pre, ",") + ")"
+			if adj {
+				continue
 			}
 		}
-		// 2. drop the other route of a chain
-		if len(cur.Routes) == 2 && !strings.Contains(rt, "+") && len(cur.Steps) == 1 {
-			lo := l.From
-			if l.To < lo {
-				lo = l.To
-			}
-			r, _ := routeByName(cur.Routes[lo])
-			if lo == 0 || r.general {
-				st := cur.Steps[0]
-				st.Target -= lo
-				single := kase{Shape: cur.Shape, Routes: []string{cur.Routes[lo]}, Rot: cur.Rot, Steps: []step{st}}
-				so := jc.get(single)
-				if so.Evaluable && hasLeak(so, func(x leak) string { return routeBetween(single, x.From, x.To) }, rt, l.Class) {
-					cur = single
-					size = 11
-				} else {
-					key = "leak:" + rt + "[in " + strings.Join(cur.Routes, ">") + "]:" + l.Class
-				}
+		report(routeBetween(k, l.From, l.To), l.Class, l.Step)
+	}
+	if o.OuterLeak && len(o.Leaks) == 0 {
+		// only the caller-side snapshots (taken around the call) saw the write to the parameter
+		class := "toplevel"
+		for _, c := range o.B.classes {
+			if c == "interior" {
+				class = "interior"
 			}
 		}
-		add(key, "leak", &l, cur, size)
+		for _, r := range k.Routes {
+			if r == "param" {
+				report(r, class, 0)
+			}
+		}
 	}
 	for range o.NoThrough {
 		r := k.Routes[len(k.Routes)-1]
 		if rr, _ := routeByName(r); rr.control == "handle" {
-			add("handle-not-shared:"+o.B.classes[0], "handle", nil, k, 3)
+			add("handle-not-shared:"+o.B.classes[0], "handle", k, 3)
 		}
 	}
 	return out
